@@ -163,6 +163,66 @@ async fn auth(a: &Value) -> Value {
     json!({"status": resp.status().to_u16(), "inner_calls": calls.load(std::sync::atomic::Ordering::SeqCst), "body": resp.body().to_vec(), "headers": hm(resp.headers())})
 }
 
+/// C20 on the real layer, more of the space: (a) allow-lists of 0..=24 peers given in ascending, descending and shuffled order (and with a
+/// duplicate), every listed peer, two unlisted ones and a request without identity; (b) a wrapped service that is BUSY (capacity 1, first request
+/// held): three requests through three clones of the layered service -- every accepted one must reach the wrapped service exactly once and get its
+/// answer, every refused one the authorizer's answer.
+async fn auth_sweep(_a: &Value) -> Value {
+    use anemo_tower::auth::{AllowedPeers, RequireAuthorizationLayer};
+    use std::sync::atomic::{AtomicUsize, Ordering};
+    let id = |k: usize| { let mut b = [0u8; 32]; b[0] = (k * 37 % 251) as u8; b[1] = k as u8; b[31] = (255 - k) as u8; PeerId(b) };
+    let mut bad = Vec::new();
+    let mut cases = 0u32;
+    for n in 0..=24usize {
+        for order in 0..4 {
+            let mut list: Vec<PeerId> = (0..n).map(id).collect();
+            match order { 0 => list.sort(), 1 => { list.sort(); list.reverse(); } 2 => { let mut x = 12345u64 + n as u64; for i in (1..list.len()).rev() { x = x.wrapping_mul(6364136223846793005).wrapping_add(1442695040888963407); list.swap(i, (x >> 33) as usize % (i + 1)); } } _ => { if let Some(f) = list.first().copied() { list.push(f); } } }
+            let calls = std::sync::Arc::new(AtomicUsize::new(0));
+            let c2 = calls.clone();
+            let inner = tower::service_fn(move |r: Request<Bytes>| { c2.fetch_add(1, Ordering::SeqCst); async move { Ok::<Response<Bytes>, std::convert::Infallible>(Response::new(r.into_body())) } });
+            let svc = tower::ServiceBuilder::new().layer(RequireAuthorizationLayer::new(AllowedPeers::new(list.clone()))).service(inner);
+            let mut senders: Vec<Option<PeerId>> = (0..n).map(|k| Some(id(k))).collect();
+            senders.push(Some(id(100))); senders.push(Some(PeerId([0; 32]))); senders.push(None);
+            for s in senders {
+                let mut req = Request::new(Bytes::from_static(b"p"));
+                if let Some(p) = s { req.extensions_mut().insert(p); }
+                let before = calls.load(Ordering::SeqCst);
+                let resp = svc.clone().oneshot(req).await.unwrap();
+                let invoked = calls.load(Ordering::SeqCst) - before;
+                let want = match s { None => (500u16, 0usize), Some(p) if list.contains(&p) => (200, 1), Some(_) => (404, 0) };
+                cases += 1;
+                if (resp.status().to_u16(), invoked) != want && bad.len() < 4 {
+                    let order_name = ["ascending", "descending", "shuffled", "with a duplicate"][order];
+                    bad.push(json!({"allow_list_size": list.len(), "order": order_name, "sender_listed": s.map(|p| list.contains(&p)), "sender_position": s.and_then(|p| list.iter().position(|x| *x == p)),
+                                    "expected": {"status": want.0, "inner_calls": want.1}, "observed": {"status": resp.status().to_u16(), "inner_calls": invoked}}));
+                }
+            }
+        }
+    }
+    // (b) busy wrapped service
+    let (p, q) = (id(1), id(2));
+    let calls = std::sync::Arc::new(AtomicUsize::new(0));
+    let gate = std::sync::Arc::new(tokio::sync::Notify::new());
+    let (c2, g2) = (calls.clone(), gate.clone());
+    let handler = tower::service_fn(move |r: Request<Bytes>| { let (c, g) = (c2.clone(), g2.clone()); async move {
+        let k = c.fetch_add(1, Ordering::SeqCst);
+        if k == 0 { g.notified().await; }
+        Ok::<Response<Bytes>, std::convert::Infallible>(Response::new(r.into_body()))
+    } });
+    let svc = tower::ServiceBuilder::new().layer(RequireAuthorizationLayer::new(AllowedPeers::new(vec![p]))).layer(tower::limit::ConcurrencyLimitLayer::new(1)).service(handler);
+    let mk = |s: Option<PeerId>| { let mut r = Request::new(Bytes::from_static(b"p")); if let Some(x) = s { r.extensions_mut().insert(x); } r };
+    let h1 = tokio::spawn(svc.clone().oneshot(mk(Some(p))));
+    tokio::time::sleep(Duration::from_millis(50)).await;
+    let h2 = tokio::spawn(svc.clone().oneshot(mk(Some(p))));
+    let h3 = tokio::spawn(svc.clone().oneshot(mk(Some(q))));
+    tokio::time::sleep(Duration::from_millis(100)).await;
+    gate.notify_one();
+    let mut statuses = Vec::new();
+    for h in [h1, h2, h3] { statuses.push(match tokio::time::timeout(Duration::from_secs(3), h).await { Ok(Ok(Ok(r))) => Some(r.status().to_u16()), _ => None }); }
+    let busy = json!({"statuses": statuses, "wrapped_service_invocations": calls.load(Ordering::SeqCst)});
+    json!({"cases": cases, "bad": bad, "busy_wrapped_service": busy})
+}
+
 fn echo() -> tower::util::BoxCloneService<Request<Bytes>, Response<Bytes>, std::convert::Infallible> {
     tower::ServiceExt::boxed_clone(tower::service_fn(|r: Request<Bytes>| async move {
         Ok::<_, std::convert::Infallible>(Response::new(r.into_body()))
@@ -189,7 +249,31 @@ async fn admission(a: &Value) -> Value {
     use anemo::types::{PeerAffinity, PeerInfo};
     let limit = a.get("limit").and_then(|x| x.as_u64()).map(|x| x as usize);
     let cto = a.get("connect_timeout_ms").and_then(|x| x.as_u64()).unwrap_or(3000);
-    let subject = network_with(1, limit, cto, false);
+    let subject = match a.get("outstanding_cap").and_then(|x| x.as_u64()) {
+        None => network_with(1, limit, cto, false),
+        Some(cap) => {
+            // a small cap on connections being established, and dials that hang (silent UDP sockets) until the connect timeout
+            let mut c = Config::default();
+            c.max_concurrent_connections = limit;
+            c.connect_timeout_ms = Some(cto);
+            c.max_concurrent_outstanding_connecting_connections = Some(cap as usize);
+            c.connectivity_check_interval_ms = Some(200);
+            anemo::Network::bind("127.0.0.1:0").server_name("verif").private_key([1; 32]).config(c).start(echo()).expect("network")
+        }
+    };
+    let mut silent = Vec::new();
+    for k in 0..a.get("hanging_explicit_dials").and_then(|x| x.as_u64()).unwrap_or(0) {
+        let sock = std::net::UdpSocket::bind("127.0.0.1:0").expect("udp");
+        let (addr, s2) = (sock.local_addr().unwrap(), subject.clone());
+        silent.push(sock);
+        tokio::spawn(async move { let _ = s2.connect(addr).await; let _ = k; });
+    }
+    if a.get("hanging_background_dial").and_then(|x| x.as_bool()).unwrap_or(false) {
+        let sock = std::net::UdpSocket::bind("127.0.0.1:0").expect("udp");
+        subject.known_peers().insert(PeerInfo { peer_id: PeerId([77; 32]), affinity: PeerAffinity::High, address: vec![sock.local_addr().unwrap().into()] });
+        silent.push(sock);
+    }
+    if !silent.is_empty() { tokio::time::sleep(Duration::from_millis(500)).await; }
     let mut peers = Vec::new();
     let mut out = Vec::new();
     for (i, step) in a["steps"].as_array().unwrap().iter().enumerate() {
@@ -387,6 +471,54 @@ async fn panicking_handler(_a: &Value) -> Value {
         }
     }
     json!({"the_panicking_request": boom_outcome, "views": views})
+}
+
+/// C13 on real networks (timing, generous margins): a node whose connection manager is kept BUSY (another peer connects and disconnects about 20
+/// times a second, so its event loop never sits idle for a whole check interval of 300 ms) learns a reachable High-affinity peer: it must dial it
+/// within a few intervals; when that peer then drops the connection it must be redialed, still under the same traffic.  A quiet node is measured too.
+async fn busy_node_still_dials(_a: &Value) -> Value {
+    use anemo::types::{PeerAffinity, PeerInfo};
+    let node = |key: u8| {
+        let mut c = Config::default();
+        c.connect_timeout_ms = Some(2000);
+        c.connectivity_check_interval_ms = Some(300);
+        anemo::Network::bind("127.0.0.1:0").server_name("verif").private_key([key; 32]).config(c).start(echo()).expect("network")
+    };
+    let mut out = Vec::new();
+    for busy in [false, true] {
+        let (n, h, t) = (node(101), node(102), node(103));
+        let stop = std::sync::Arc::new(std::sync::atomic::AtomicBool::new(false));
+        let traffic = if busy {
+            let (t2, addr, nid, stop2) = (t.clone(), n.local_addr(), n.peer_id(), stop.clone());
+            Some(tokio::spawn(async move {
+                let mut k = 0u32;
+                while !stop2.load(std::sync::atomic::Ordering::Relaxed) {
+                    if tokio::time::timeout(Duration::from_millis(500), t2.connect(addr)).await.map(|r| r.is_ok()).unwrap_or(false) { k += 1; }
+                    let _ = t2.disconnect(nid);
+                    tokio::time::sleep(Duration::from_millis(40)).await;
+                }
+                k
+            }))
+        } else { None };
+        tokio::time::sleep(Duration::from_millis(400)).await;
+        let t0 = std::time::Instant::now();
+        n.known_peers().insert(PeerInfo { peer_id: h.peer_id(), affinity: PeerAffinity::High, address: vec![h.local_addr().into()] });
+        let mut first_ms = None;
+        for _ in 0..400 { if n.peers().contains(&h.peer_id()) { first_ms = Some(t0.elapsed().as_millis() as u64); break; } tokio::time::sleep(Duration::from_millis(10)).await; }
+        // the High peer drops the connection: it must be redialed
+        let mut redial_ms = None;
+        if first_ms.is_some() {
+            for _ in 0..100 { if h.peers().contains(&n.peer_id()) { break; } tokio::time::sleep(Duration::from_millis(10)).await; }
+            let _ = h.disconnect(n.peer_id());
+            for _ in 0..200 { if !n.peers().contains(&h.peer_id()) { break; } tokio::time::sleep(Duration::from_millis(10)).await; }
+            let t1 = std::time::Instant::now();
+            for _ in 0..400 { if n.peers().contains(&h.peer_id()) { redial_ms = Some(t1.elapsed().as_millis() as u64); break; } tokio::time::sleep(Duration::from_millis(10)).await; }
+        }
+        stop.store(true, std::sync::atomic::Ordering::Relaxed);
+        let connects = match traffic { Some(j) => tokio::time::timeout(Duration::from_secs(3), j).await.ok().and_then(|r| r.ok()), None => None };
+        out.push(json!({"busy": busy, "interval_ms": 300, "dialed_after_ms": first_ms, "redialed_after_ms": redial_ms, "unrelated_connects_meanwhile": connects}));
+    }
+    json!({"runs": out})
 }
 
 fn fnv(b: &[u8]) -> u64 { let mut h: u64 = 0xcbf29ce484222325; for x in b { h ^= *x as u64; h = h.wrapping_mul(0x100000001b3); } h }
@@ -639,7 +771,7 @@ async fn history(args: &Value) -> Value {
 
 fn main() {
     let args: Vec<String> = std::env::args().collect();
-    let multi = matches!(args.get(1).map(|s| s.as_str()), Some("admission") | Some("default_timeouts") | Some("rpc_pairing") | Some("history") | Some("oversize_confined") | Some("hostile_streams") | Some("network_names") | Some("claimed_name_grid") | Some("stolen_certificate") | Some("panicking_handler") | Some("end_to_end_fidelity") | Some("mutual_dial_inflight") | Some("identity_claims_in_headers") | Some("header_only_deadline") | Some("hostile_requests"));
+    let multi = matches!(args.get(1).map(|s| s.as_str()), Some("admission") | Some("default_timeouts") | Some("rpc_pairing") | Some("history") | Some("oversize_confined") | Some("hostile_streams") | Some("network_names") | Some("claimed_name_grid") | Some("stolen_certificate") | Some("busy_node_still_dials") | Some("panicking_handler") | Some("end_to_end_fidelity") | Some("mutual_dial_inflight") | Some("identity_claims_in_headers") | Some("header_only_deadline") | Some("hostile_requests"));
     let rt = if multi {
         tokio::runtime::Builder::new_multi_thread().worker_threads(2).enable_all().build().unwrap()
     } else {
@@ -775,6 +907,8 @@ async fn run(args: Vec<String>) {
         "mutual_dial_inflight" => mutual_dial_inflight(&a).await,
         "end_to_end_fidelity" => end_to_end_fidelity(&a).await,
         "panicking_handler" => panicking_handler(&a).await,
+        "auth_sweep" => auth_sweep(&a).await,
+        "busy_node_still_dials" => busy_node_still_dials(&a).await,
         "hostile_streams" => hostile::hostile_streams(&a).await,
         // several messages written in ONE process, one after the other (state kept between calls would show)
         #[cfg(feature = "hooks-wire")]
